@@ -68,10 +68,11 @@ fn clean_menu(u: i32) -> Vec<Vec<ds::Horizontal>> {
         vec![disc("-", "b", 2), ch('c'), kern(u, ds::KernKind::Normal)],
     ]
 }
-/// The 12 items used where the full menu would be too wide.
+/// The 13 items used where the full menu would be too wide (both kinds of discretionary: with and
+/// without pre-break material, so that \\hyphenpenalty and \\exhyphenpenalty both matter).
 fn reduced_menu(u: i32) -> Vec<Vec<ds::Horizontal>> {
     let m = clean_menu(u);
-    [0usize, 1, 2, 4, 5, 9, 10, 13, 14, 16, 17, 18].iter().map(|i| m[*i].clone()).collect()
+    [0usize, 1, 2, 4, 5, 9, 10, 13, 14, 15, 16, 17, 18].iter().map(|i| m[*i].clone()).collect()
 }
 /// The 8 items of the looseness probe.
 fn looseness_menu(u: i32) -> Vec<Vec<ds::Horizontal>> {
@@ -136,8 +137,26 @@ fn stretchy_menu(u: i32) -> Vec<Vec<ds::Horizontal>> {
     m
 }
 
+/// Discretionaries of both kinds (with pre-break material: \\hyphenpenalty; without: \\exhyphenpenalty),
+/// with and without post-break and replaced material, next to two glues, a penalty and nothing.
+fn discs_menu(u: i32) -> Vec<Vec<ds::Horizontal>> {
+    vec![
+        vec![disc("-", "", 0)],
+        vec![disc("", "", 0)],
+        vec![disc("-", "c", 0)],
+        vec![disc("", "c", 0)],
+        vec![disc("-", "b", 1), ch('c')],
+        vec![disc("", "", 1), ch('c')],
+        vec![g(u, 2, 1, 1)],
+        vec![g(u, 2, 3, 0)],
+        vec![pen(50)],
+        vec![],
+    ]
+}
+
 fn menu_by_name(name: &str, u: i32) -> Vec<Vec<ds::Horizontal>> {
     match name {
+        "discs" => discs_menu(u),
         "stretchy" => stretchy_menu(u),
         "orders" => orders_menu(u),
         "clean" => clean_menu(u),
@@ -190,7 +209,7 @@ impl Clone for PVar {
 /// single changes that are also combined in pairs
 const N_SINGLES: usize = 15;
 /// all single changes (15..=17: skips with infinite stretch of order fill, filll and negative fil; 18: stretchy finite \\rightskip)
-const N_ALL_SINGLES: usize = 28;
+const N_ALL_SINGLES: usize = 38;
 /// fields touched by single change k (two changes of the same field are not combined)
 const FIELD_OF: [u8; N_SINGLES] = [0, 0, 1, 2, 3, 4, 4, 5, 5, 6, 7, 7, 8, 9, 3];
 
@@ -228,10 +247,21 @@ fn apply_single(v: &mut PVar, k: usize, u: i32) {
         25 => p.adj_demerits = kp::AWFUL_BAD as i32,
         26 => p.adj_demerits = kp::AWFUL_BAD as i32 - 101,
         27 => p.hyphen_penalty = 10001,
+        // the limits of §831 reached through the parameters (a discretionary's penalty), both sides and far beyond
+        28 => p.hyphen_penalty = -20000,
+        29 => p.hyphen_penalty = -10001,
+        30 => p.hyphen_penalty = -10000,
+        31 => p.hyphen_penalty = -9999,
+        32 => p.hyphen_penalty = 10000,
+        33 => p.hyphen_penalty = 20000,
+        34 => p.ex_hyphen_penalty = -20000,
+        35 => p.ex_hyphen_penalty = 9999,
+        36 => p.ex_hyphen_penalty = 10001,
+        37 => p.ex_hyphen_penalty = 20000,
         _ => unreachable!(),
     }
 }
-/// 0 = plain defaults; 1..=28 = one change; then every pair of the first 15 changes that touch different fields.
+/// 0 = plain defaults; 1..=38 = one change; then every pair of the first 15 changes that touch different fields.
 fn pvars(u: i32, pairs: bool) -> Vec<(String, PVar)> {
     let base = PVar { params: Params::plain_tex_defaults(), emergency: 0, bare_end: false };
     let mut out = vec![("plain".to_string(), base.clone())];
@@ -606,6 +636,22 @@ fn check_instance(idx: u64, inst: &Inst, acc: &mut Acc) {
     if (0..o.bps.len()).any(|b| { let bb = o.fit(0, b, 1).0; bb == o.threshold + 1 && bb <= reftex::arith::INF_BAD }) {
         acc.count("first_line_candidate_with_badness_one_above_the_threshold");
     }
+    // the limits of §831 reached through a parameter, on a list that has a discretionary of the matching kind
+    for n in &mlist {
+        if let kp::Node::Disc { pre, .. } = n {
+            let (p, hy) = if pre.is_empty() { (mp.ex_hyphen_penalty, false) } else { (mp.hyphen_penalty, true) };
+            if p <= kp::EJECT_PENALTY {
+                acc.count(if hy { "forced_break_at_discretionary_via_hyphen_penalty" } else { "forced_break_at_discretionary_via_ex_hyphen_penalty" });
+                if p < kp::EJECT_PENALTY {
+                    acc.count(if hy { "…hyphen_penalty strictly below -10000" } else { "…ex_hyphen_penalty strictly below -10000" });
+                }
+            }
+            if p >= kp::INF_PENALTY {
+                acc.count(if hy { "break_forbidden_at_discretionary_via_hyphen_penalty" } else { "break_forbidden_at_discretionary_via_ex_hyphen_penalty" });
+            }
+            break;
+        }
+    }
     if br.feasible == 0 {
         acc.count("no_feasible_sequence");
     }
@@ -750,7 +796,7 @@ impl Space {
             self.widths,
             self.tolerances,
             self.n_pvars(),
-            if self.pairs { " (plain, 28 single changes, all pairs of the first 15 that touch different fields)" } else { " (plain + single changes)" },
+            if self.pairs { " (plain, 38 single changes, all pairs of the first 15 that touch different fields)" } else { " (plain + single changes)" },
             self.loosenesses,
             self.forces,
             self.endings
@@ -954,6 +1000,20 @@ fn spaces(quick: bool) -> Vec<Space> {
             loosenesses: vec![0],
             forces: vec![false],
             endings: vec![1, 2, 3, 4, 5],
+        },
+        Space {
+            name: "disc-penalties",
+            what: "the penalty of a discretionary break comes from a parameter: \\hyphenpenalty and \\exhyphenpenalty each at -20000, -10001, -10000, -9999, 9999, 10000, 10001, 20000 (forced break at or below -10000, no break at or above 10000, §831), on lists that hold discretionaries of the matching kind; narrow and wide lines".into(),
+            menu: "discs",
+            nb: if quick { 4 } else { 5 },
+            units: vec![PT],
+            widths: vec![vec![9], vec![12], vec![20]],
+            tolerances: vec![200, 10000],
+            pairs: false,
+            pvar_sel: vec![0, 29, 30, 31, 32, 23, 33, 28, 34, 35, 24, 8, 25, 36, 9, 37, 38],
+            loosenesses: vec![0],
+            forces: vec![false],
+            endings: vec![0],
         },
         Space {
             name: "tolerance-above-inf-bad",
@@ -1212,7 +1272,7 @@ fn check_all_attempts(idx: u64, list: &[ds::Horizontal], widths: &[i32], pre_tol
     }
 }
 
-const ATTEMPT_CONFIGS: [(i32, i32, i32); 6] = [(100, 200, 0), (-1, 200, 0), (0, 100, 1), (100, 10000, 0), (50, 100, 2), (200, 100, 3)];
+const ATTEMPT_CONFIGS: [(i32, i32, i32); 7] = [(100, 200, 0), (-1, 200, 0), (0, 100, 1), (100, 10000, 0), (50, 100, 2), (200, 100, 3), (20000, 200, 0)];
 
 fn all_attempts(ctx: &mut Ctx, family_no: u64, quick: bool) {
     let nb = if quick { 4 } else { 5 };
@@ -1315,6 +1375,12 @@ fn main() {
     ctx.require("answer_from_the_second_pass", "… the first pass has none, the second has");
     ctx.require("answer_from_the_emergency_pass", "… only the pass with the emergency stretch has");
     ctx.require("no_pass_has_a_feasible_sequence_forced_rescue", "… no pass has one (forced rescue, legality only)");
+    ctx.require("forced_break_at_discretionary_via_hyphen_penalty", "the first discretionary of the list has pre-break material and \\hyphenpenalty <= -10000");
+    ctx.require("forced_break_at_discretionary_via_ex_hyphen_penalty", "the first discretionary of the list has no pre-break material and \\exhyphenpenalty <= -10000");
+    ctx.require("…hyphen_penalty strictly below -10000", "the same with \\hyphenpenalty < -10000 (the clamp of §831 is needed)");
+    ctx.require("…ex_hyphen_penalty strictly below -10000", "the same with \\exhyphenpenalty < -10000");
+    ctx.require("break_forbidden_at_discretionary_via_hyphen_penalty", "\\hyphenpenalty >= 10000 on a list with a discretionary that has pre-break material");
+    ctx.require("break_forbidden_at_discretionary_via_ex_hyphen_penalty", "\\exhyphenpenalty >= 10000 on a list with a discretionary without pre-break material");
     ctx.require("skipped_non_monotone", "the model detects instances outside the monotonicity premise");
     ctx.require("logged_feasible_breakpoints_checked", "feasible breakpoints reported through debug::Logger and checked against the model");
     ctx.finish("one evaluation = one call of break_line_single_attempt on an enumerated (list, line widths, tolerance, parameters) instance, judged end to end against the brute-force optimum over every sequence of legal breakpoints and per step against the model's badness/penalty/demerits for every logged feasible breakpoint; non-trivial = at least two feasible sequences with different total demerits");
